@@ -27,20 +27,6 @@ theorem C06_group {α κ : Type} [DecidableEq κ] (le : κ → κ → Bool) (key
     (∀ x ∈ l, ∃ g, (key x, g) ∈ groupBy key (sortBy le key l)) :=
   group_sort le key h l
 
-/-- the order on request class names used by `sorted(requests, key=class name)` is a total order -/
-theorem rkind_order : IsOrder RKind.le where
-  refl := by intro a; cases a <;> decide
-  total := by intro a b; cases a <;> cases b <;> decide
-  trans := by intro a b c; cases a <;> cases b <;> cases c <;> decide
-  antisymm := by intro a b; cases a <;> cases b <;> decide
-
-/-- likewise for `trnrqs.sort(key=message-set class name)` -/
-theorem msgset_order : IsOrder MsgSet.le where
-  refl := by intro a; cases a <;> decide
-  total := by intro a b; cases a <;> cases b <;> decide
-  trans := by intro a b c; cases a <;> cases b <;> cases c <;> decide
-  antisymm := by intro a b; cases a <;> cases b <;> decide
-
 example : sortBy RKind.le Req.kind [.stmt none none none none none, .ccStmt none none none none,
     .stmt (some ['x']) none none none none] =
     [.ccStmt none none none none, .stmt none none none none none, .stmt (some ['x']) none none none none] := by
@@ -99,5 +85,103 @@ theorem C06_v2_closed_serialize {S : Schema} {cv : Conv} (env : Env) (cfg : Cfg)
 
 example : init { url := [], version := some 203, closeElements := some false } = .error .value := rfl
 example : (init { url := [], version := some 102, closeElements := some false }).toBool = true := rfl
+
+/-- **C06_compose** — for every configuration and every request list: if `request_statements` composes a request,
+    the `OFX` instance satisfies `RequestSpec`: one `SONRQ` with exactly the supplied identity (FI iff ORG, CLIENTUID
+    iff configured ∧ version ≥ 103); a message set is present iff a request of one of its kinds was made and holds
+    wrappers of its own kinds only; for each kind the wrappers of that kind, in order, are exactly the requests of
+    that kind in request order, each with its own account ids, type, bank/broker id, dates and flags and nothing
+    else (so: one wrapper per request); every wrapper consumed its own uuid index, hence the TRNUIDs are pairwise
+    distinct when `uuidStream` is injective. -/
+theorem C06_compose {S : Schema} {cv : Conv} {Ptext : Str → Prop} (hS : ReqWF S = true) (hcv : ConvOK cv Ptext)
+    (cfg : Cfg) (password : Str) (reqs : List Req) (uuidStream : Nat → Str) (dtclient : DT)
+    (htexts : ∀ s ∈ cfg.texts, Ptext s) (hpw : Ptext password) (hreqs : ∀ r ∈ reqs, ∀ s ∈ r.texts, Ptext s)
+    (huuid : ∀ i j, uuidStream i = uuidStream j → i = j) (hne : ∀ i, uuidStream i ≠ [])
+    (huP : ∀ i, Ptext (uuidStream i)) {root : Node}
+    (h : requestStatements S cv cfg password reqs uuidStream dtclient = .ok root) :
+    RequestSpec S cfg password dtclient reqs (Int.ofNat cfg.version) root :=
+  requestStatements_spec hS hcv cfg password reqs uuidStream dtclient htexts hpw hreqs huuid hne huP h
+
+/-- a non-trivial configuration: markup characters in the identity, CLIENTUID, no end tags -/
+def exampleCfg : Cfg :=
+  { url := [], userid := "us&er".toList, clientuid := some "c<1>".toList, org := some "ORG".toList, fid := none,
+    version := 103, appid := "QWIN".toList, appver := "2700".toList, language := "ENG".toList, prettyprint := true,
+    closeElements := false, bankid := some "123".toList, brokerid := none }
+
+/-- the hypotheses of `C06_compose` are satisfiable by it, a password with markup, and an injective uuid stream -/
+example : (∀ s ∈ exampleCfg.texts, EntityFree s) ∧ EntityFree "p&a<ss>w".toList ∧
+    (∀ i j, List.replicate (i + 1) 'u' = List.replicate (j + 1) 'u' → i = j) := by
+  refine ⟨by decide +kernel, by decide +kernel, ?_⟩
+  intro i j h
+  have := congrArg List.length h
+  simpa using this
+
+/-- **C06_header** — the file starts with the header of the configured version (or of the version given in the call):
+    whenever `serialize` returns bytes, they are `str(header) ++ body` for a header object carrying that version -/
+theorem C06_header {S : Schema} {cv : Conv} (env : Env) (cfg : Cfg) (ofx : Node) (version : Option Nat)
+    (old new : Option Str) (pretty close : Option Bool) (bytes : Str)
+    (h : serializeReq S cv env cfg ofx version old new pretty close = .ok bytes) :
+    ∃ hdr tree, hdrVersion hdr = Int.ofNat (orDefault version cfg.version) ∧ toEtree S cv ofx = .ok tree ∧
+      bytes = Header.strHdr hdr ++ Serialize.serializeBody env.htmlEmpty (orDefault close cfg.closeElements)
+        (orDefault pretty cfg.prettyprint) tree := by
+  simp only [serializeReq] at h
+  obtain ⟨hdr, hh, h⟩ := bind_ok h
+  obtain ⟨tree, ht, h⟩ := bind_ok h
+  refine ⟨hdr, tree, makeHeader_version _ _ _ _ _ _ _ hh, ht, ?_⟩
+  simp only [Serialize.serialize] at h
+  split at h
+  · simp at h
+  · simp only [Except.ok.injEq] at h; exact h.symm
+
+/-- what C06 takes from the wire layers (C01: serializer, header parser, lexer, builder, `from_etree`): the bytes
+    `serialize` made of an instance read back to the header version and that instance -/
+def RoundTrip (readback : Str → PyM (Int × Node)) (bytes : Str) (version : Nat) (inst : Node) : Prop :=
+  readback bytes = .ok (Int.ofNat version, inst)
+
+/-- **C06_wire** — relative to the round-trip theorem of the wire layers: the bytes `request_statements(dryrun=True)`
+    returns, parsed back, satisfy `RequestSpec` with the header version they carry -/
+theorem C06_wire {S : Schema} {cv : Conv} {Ptext : Str → Prop} (hS : ReqWF S = true) (hcv : ConvOK cv Ptext)
+    (env : Env) (cfg : Cfg) (password : Str) (reqs : List Req) (uuidStream : Nat → Str) (dtclient : DT)
+    (htexts : ∀ s ∈ cfg.texts, Ptext s) (hpw : Ptext password) (hreqs : ∀ r ∈ reqs, ∀ s ∈ r.texts, Ptext s)
+    (huuid : ∀ i j, uuidStream i = uuidStream j → i = j) (hne : ∀ i, uuidStream i ≠ [])
+    (huP : ∀ i, Ptext (uuidStream i)) (readback : Str → PyM (Int × Node)) {bytes : Str}
+    (h : statementsBytes S cv env cfg password reqs uuidStream dtclient = .ok bytes)
+    (hrt : ∀ inst, requestStatements S cv cfg password reqs uuidStream dtclient = .ok inst →
+      RoundTrip readback bytes cfg.version inst) :
+    ∃ hv inst, readback bytes = .ok (hv, inst) ∧ RequestSpec S cfg password dtclient reqs hv inst := by
+  simp only [statementsBytes] at h
+  obtain ⟨inst, hinst, _⟩ := bind_ok h
+  exact ⟨_, inst, hrt inst hinst,
+    C06_compose hS hcv cfg password reqs uuidStream dtclient htexts hpw hreqs huuid hne huP hinst⟩
+
+/-- **C06_accounts** — `request_accounts(password, dtacctup)`: the sign-on as in `C06_signon`, one `SIGNUPMSGSRQV1`
+    holding one `ACCTINFOTRNRQ` with its own TRNUID and exactly the DTACCTUP asked for -/
+theorem C06_accounts {S : Schema} {cv : Conv} {Ptext : Str → Prop} (hS : ReqWF S = true) (hcv : ConvOK cv Ptext)
+    (cfg : Cfg) (password : Str) (dtacctup : Option DT) (uuidStream : Nat → Str) (dtclient : DT)
+    (htexts : ∀ s ∈ cfg.texts, Ptext s) (hpw : Ptext password) (hu : Ptext (uuidStream 0))
+    (hne : uuidStream 0 ≠ []) {root : Node}
+    (h : requestAccounts S cv cfg password dtacctup uuidStream dtclient = .ok root) :
+    checkAccounts S cfg password dtclient dtacctup (Int.ofNat cfg.version) root = [] :=
+  requestAccounts_spec hS hcv cfg password dtacctup uuidStream dtclient htexts hpw hu hne h
+
+/-- **C06_profile** — `_request_profile(dtprofup)`: anonymous sign-on (user id and password are the placeholder; FI,
+    CLIENTUID, language and application ids as configured), one `PROFMSGSRQV1` holding one `PROFTRNRQ` with
+    CLIENTROUTING `NONE` and the given DTPROFUP (1990-01-01 UTC when none is given) -/
+theorem C06_profile {S : Schema} {cv : Conv} {Ptext : Str → Prop} (hS : ReqWF S = true) (hcv : ConvOK cv Ptext)
+    (cfg : Cfg) (dtprofup : Option DT) (uuidStream : Nat → Str) (dtclient : DT)
+    (htexts : ∀ s ∈ cfg.texts, Ptext s) (hph : Ptext authPlaceholder) (hnone : Ptext "NONE".toList)
+    (hu : Ptext (uuidStream 0)) (hne : uuidStream 0 ≠ []) {root : Node}
+    (h : requestProfile S cv cfg dtprofup uuidStream dtclient = .ok root) :
+    checkProfile S cfg dtclient dtprofup none (Int.ofNat cfg.version) root = [] :=
+  requestProfile_spec hS hcv cfg dtprofup uuidStream dtclient htexts hph hnone hu hne h
+
+example : EntityFree authPlaceholder ∧ EntityFree "NONE".toList := by decide +kernel
+
+/-- **C06_tax** (what is true of the pinned code) — `request_tax1099` composes the same request whatever account
+    number is asked for: the argument is never used -/
+theorem C06_tax_acctnum_ignored {S : Schema} {cv : Conv} (cfg : Cfg) (password : Str) (taxyears : List Str)
+    (acctnum recid : Option Str) (uuidStream : Nat → Str) (dtclient : DT) :
+    requestTax S cv cfg password taxyears acctnum recid uuidStream dtclient =
+      requestTax S cv cfg password taxyears none recid uuidStream dtclient := rfl
 
 end Ofx.C06
